@@ -598,6 +598,60 @@ func init() {
 			}
 			t.stop()
 		}
+		// 8. a context that is done BEFORE the call is made, with and without per-RPC credentials among the call
+		// options (whose code runs first): unary and stream, both transports: the status, never the bare error
+		okSvc := &hx.Svc{
+			Unary:  func(ctx context.Context, req *hx.Msg) (*hx.Msg, error) { return &hx.Msg{}, nil },
+			Stream: func(kind string, ss grpc.ServerStream) error { return nil },
+		}
+		for _, t := range bothTransports(okSvc) {
+			for _, how := range []string{"cancelled", "expired"} {
+				for _, creds := range []bool{false, true} {
+					for _, kind := range []string{"unary", "BD"} {
+						var ctx context.Context
+						var cancel context.CancelFunc
+						want := codes.Canceled
+						if how == "cancelled" {
+							ctx, cancel = context.WithCancel(context.Background())
+							cancel()
+						} else {
+							ctx, cancel = context.WithDeadline(context.Background(), time.Now().Add(-time.Second))
+							want = codes.DeadlineExceeded
+						}
+						var copts []grpc.CallOption
+						if creds {
+							copts = append(copts, grpc.PerRPCCredentials(mapCreds{"authorization": "token"}))
+						}
+						var res []string
+						ok := true
+						if kind == "unary" {
+							e := t.ch.Invoke(ctx, "/verif.Svc/U", &hx.Msg{}, &hx.Msg{}, copts...)
+							res = append(res, fmt.Sprint(e))
+							ok = isCtxStatus(e, want)
+						} else {
+							cs, e := t.ch.NewStream(ctx, hx.StreamDescOf(kind), "/verif.Svc/"+kind, copts...)
+							if e != nil {
+								res = append(res, "NewStream: "+fmt.Sprint(e))
+								ok = isCtxStatus(e, want)
+							} else {
+								e = cs.RecvMsg(&hx.Msg{})
+								res = append(res, "RecvMsg: "+fmt.Sprint(e))
+								ok = isCtxStatus(e, want)
+								runtime.KeepAlive(cs)
+							}
+						}
+						cancel()
+						id++
+						d := map[string]interface{}{"transport": t.name, "kind": kind, "context": how + " before the call", "per_rpc_credentials": creds, "results": res}
+						if !ok {
+							o.Violate("a call made on a context that had already ended did not return the Canceled / DeadlineExceeded status", d, res, want.String())
+						}
+						checked(o, "context_done_before_call_"+t.name, id, ok, d)
+					}
+				}
+			}
+			t.stop()
+		}
 		o.Check, o.Oracle, o.Finding = "check_c04", "oracle_c04", "finding_c04"
 		o.Shard = 60
 	}
